@@ -1,3 +1,231 @@
+import Std.Data.HashMap
 import Driver.Proto
-/-! placeholder driver for the .g2o model (C13/C14); replaced by the model's line protocol -/
-def main : IO Unit := IO.println "err not-built"
+import GraphSlam.Model.G2O
+
+/-!
+# Line-protocol driver of the `.g2o` model (C13 / C14)
+
+One request per input line, one reply per output line.  Strings travel as dot-separated lower-case hex code points
+(`-` = empty string); float atoms as 16-hex-digit bit patterns; ids as decimal integers.
+
+```
+ws                                   -> ok <hex code point>*            every c with isPySpace c
+lines <text>                         -> ok <line>/<blank 0|1>/<rstrip>/<tok,tok,..> ...   (readlines, strip test, rstrip, split)
+import <from|g2o|r2|r3|se2|se3> @C <tag>,<nIds>,<estDim>,<infoDim>,<hasFrom> ... @T <text>
+       @F <tok>:<bits|!> ... @I <tok>:<int|!> ... @W <bits>:<bits> ... @Q <b,b,b,b>:<b,b,b,b> ...
+                                     -> ok <item>*      items: w:<logger>:<msg>  err:<Class|->  p:.. v:.. e:..
+export @G <item>* @F <bits>:<str> ... @I <int>:<str> ... @W <bits>:<bits> ...
+                                     -> ok <text>  |  err <Class> <text written so far | none>
+```
+Graph items: `p:<se2|se3>:<id>:<kind>:<atoms>`, `v:<id>:<kind>:<atoms>`, `e:odo:<ids>:<info>:<kind>:<atoms>`,
+`e:lm:<ids>:<info>:<kind>:<atoms>:<kind>:<atoms>:<int|None>`, `e:cu:<ids>:<info>:<cls>:<atoms>:<str|None>`;
+`<atoms>`/`<ids>` comma separated, `<info>` rows separated by `;`.
+A table entry the model asks for and the request does not contain is reported as `need ...` (never guessed).
+-/
+
+open GraphSlam.Model.G2O
+
+namespace G2ODriver
+
+abbrev Atom := String
+
+def hexOfNat (n : Nat) : String := String.ofList (Nat.toDigits 16 n)
+
+def encStr (s : Str) : String :=
+  if s.isEmpty then "-" else ".".intercalate (s.map fun c => hexOfNat c.toNat)
+
+def decStr (s : String) : Option Str :=
+  if s == "-" then some [] else
+  (s.splitOn ".").foldr (fun w acc =>
+    match acc, Driver.parseHex w with
+    | some cs, some n => if n.isValidChar then some (Char.ofNat n :: cs) else none
+    | _, _ => none) (some [])
+
+def splitC (s : String) (sep : String) : List String := if s.isEmpty then [] else s.splitOn sep
+
+def kindName : PoseKind → String
+  | .r2 => "r2" | .r3 => "r3" | .se2 => "se2" | .se3 => "se3" | .other => "other"
+
+def kindOf : String → Option PoseKind
+  | "r2" => some .r2 | "r3" => some .r3 | "se2" => some .se2 | "se3" => some .se3 | "other" => some .other
+  | _ => none
+
+def errName : PyErr → String
+  | .valueError => "ValueError" | .indexError => "IndexError" | .keyError => "KeyError"
+  | .assertionError => "AssertionError" | .notImplementedError => "NotImplementedError" | .unbound => "Unbound"
+
+def atomsStr (xs : List Atom) : String := ",".intercalate xs
+def idsStr (xs : List Int) : String := ",".intercalate (xs.map toString)
+def infoStr (m : Mat Atom) : String := ";".intercalate (m.map atomsStr)
+def oidStr : Option Int → String | some z => toString z | none => "None"
+
+def paramItem (p : Param Atom) : String :=
+  s!"p:{match p.kind with | .se2offset => "se2" | .se3offset => "se3"}:{p.id}:{kindName p.value.kind}:{atomsStr p.value.xs}"
+
+def vertexItem (v : Vertex Atom) : String := s!"v:{v.id}:{kindName v.pose.kind}:{atomsStr v.pose.xs}"
+
+def edgeItem (e : Edge Atom) : String :=
+  match e.body with
+  | .odometry est => s!"e:odo:{idsStr e.ids}:{infoStr e.info}:{kindName est.kind}:{atomsStr est.xs}"
+  | .landmark est off oid =>
+    s!"e:lm:{idsStr e.ids}:{infoStr e.info}:{kindName est.kind}:{atomsStr est.xs}:{kindName off.kind}:{atomsStr off.xs}:{oidStr oid}"
+  | .custom cls est out =>
+    s!"e:cu:{idsStr e.ids}:{infoStr e.info}:{cls}:{atomsStr est}:{match out with | some s => encStr s | none => "None"}"
+
+def parseIds (s : String) : Option (List Int) := (splitC s ",").mapM String.toInt?
+def parseInfo (s : String) : Mat Atom := (splitC s ";").map (fun r => splitC r ",")
+
+def parseItem (g : Graph Atom) (it : String) : Option (Graph Atom) :=
+  match it.splitOn ":" with
+  | ["p", k, id, pk, xs] =>
+    match (if k == "se2" then some ParamKind.se2offset else if k == "se3" then some ParamKind.se3offset else none), id.toInt?, kindOf pk with
+    | some k, some id, some pk => some { g with params := g.params ++ [⟨k, id, ⟨pk, splitC xs ","⟩⟩] }
+    | _, _, _ => none
+  | ["v", id, pk, xs] =>
+    match id.toInt?, kindOf pk with
+    | some id, some pk => some { g with vertices := g.vertices ++ [⟨id, ⟨pk, splitC xs ","⟩⟩] }
+    | _, _ => none
+  | ["e", "odo", ids, info, ek, est] =>
+    match parseIds ids, kindOf ek with
+    | some ids, some ek => some { g with edges := g.edges ++ [⟨ids, parseInfo info, .odometry ⟨ek, splitC est ","⟩⟩] }
+    | _, _ => none
+  | ["e", "lm", ids, info, ek, est, ok, off, oid] =>
+    match parseIds ids, kindOf ek, kindOf ok, (if oid == "None" then some none else oid.toInt?.map some) with
+    | some ids, some ek, some ok, some oid =>
+      some { g with edges := g.edges ++ [⟨ids, parseInfo info, .landmark ⟨ek, splitC est ","⟩ ⟨ok, splitC off ","⟩ oid⟩] }
+    | _, _, _, _ => none
+  | ["e", "cu", ids, info, cls, est, out] =>
+    match parseIds ids, cls.toNat?, (if out == "None" then some none else (decStr out).map some) with
+    | some ids, some cls, some out => some { g with edges := g.edges ++ [⟨ids, parseInfo info, .custom cls (splitC est ",") out⟩] }
+    | _, _, _ => none
+  | _ => none
+
+/-- split the request into sections `@X item item ...` -/
+def sections (ws : List String) : List (String × List String) :=
+  let rec go (ws : List String) (cur : Option (String × List String)) (acc : List (String × List String)) :=
+    match ws with
+    | [] => (match cur with | some (k, xs) => (k, xs.reverse) :: acc | none => acc).reverse
+    | w :: rest =>
+      if w.startsWith "@" then
+        go rest (some (w, [])) (match cur with | some (k, xs) => (k, xs.reverse) :: acc | none => acc)
+      else
+        match cur with
+        | some (k, xs) => go rest (some (k, w :: xs)) acc
+        | none => go rest none acc
+  go ws none []
+
+def sect (ss : List (String × List String)) (k : String) : List String :=
+  match ss.find? (·.1 == k) with | some (_, xs) => xs | none => []
+
+abbrev Tbl := Std.HashMap String String
+
+def mkTbl (entries : List String) : Tbl :=
+  entries.foldl (fun m e => match e.splitOn ":" with | [k, v] => m.insert k v | _ => m) {}
+
+def bitsEq (a b : Atom) : Bool :=
+  match Driver.parseHex a, Driver.parseHex b with
+  | some x, some y => Float.ofBits x.toUInt64 == Float.ofBits y.toUInt64
+  | _, _ => false
+
+def zeroAtom : Atom := "0000000000000000"
+
+def mkEnv (tF tI tW tQ tfF tfI : Tbl) : Env Atom where
+  parseF t := match tF.get? (encStr t) with | some "!" => none | some b => some b | none => some ("?parsef:" ++ encStr t)
+  parseI t := match tI.get? (encStr t) with | some "!" => none | some z => z.toInt? | none => none
+  fmtF a := match tfF.get? a with | some s => (decStr s).getD ['?'] | none => "?fmtf".toList
+  fmtI z := match tfI.get? (toString z) with | some s => (decStr s).getD ['?'] | none => "?fmti".toList
+  wrap a := match tW.get? a with | some b => b | none => "?wrap:" ++ a
+  normQ a b c d := match tQ.get? (",".intercalate [a, b, c, d]) with
+    | some r => r.splitOn ","
+    | none => ["?normq:" ++ ",".intercalate [a, b, c, d]]
+  zero := zeroAtom
+  numEq := bitsEq
+
+def parseSpec (i : Nat) (s : String) : Option CustomSpec :=
+  match s.splitOn "," with
+  | [tag, a, b, c, d] =>
+    match decStr tag, a.toNat?, b.toNat?, c.toNat? with
+    | some tag, some a, some b, some c => some ⟨tag, a, b, c, d == "1", i⟩
+    | _, _, _, _ => none
+  | _ => none
+
+def loaderOf : String → Option (Option Loader)
+  | "from" => some none | "g2o" => some (some .g2o) | "r2" => some (some .r2) | "r3" => some (some .r3)
+  | "se2" => some (some .se2) | "se3" => some (some .se3) | _ => none
+
+def loggerName : Logger → String | .graph => "graph" | .load => "load"
+
+def handleImport (ld : String) (rest : List String) : String :=
+  let ss := sections rest
+  match loaderOf ld, (sect ss "@T").head?.bind decStr with
+  | some loader, some text =>
+    let tF := mkTbl (sect ss "@F"); let tI := mkTbl (sect ss "@I"); let tW := mkTbl (sect ss "@W"); let tQ := mkTbl (sect ss "@Q")
+    -- completeness of the conversion tables for every token of every line, and of the wrap table for every float
+    let toks := (readlines text).flatMap splitWS
+    match toks.find? (fun t => !(tF.contains (encStr t)) || !(tI.contains (encStr t))) with
+    | some t => "need token " ++ encStr t
+    | none =>
+      match (tF.toList.map (·.2)).find? (fun b => b != "!" && !(tW.contains b)) with
+      | some b => "need wrap " ++ b
+      | none =>
+        if !(tW.contains zeroAtom) then "need wrap " ++ zeroAtom else
+        let env := mkEnv tF tI tW tQ {} {}
+        let specs := ((sect ss "@C").zipIdx.filterMap fun (s, i) => parseSpec i s)
+        if specs.length != (sect ss "@C").length then "err bad-spec" else
+        let customs := specs.map (CustomSpec.toType env)
+        let out : ParseOut Atom := match loader with
+          | none => Graph.fromG2O env customs text
+          | some l => Loader.run env text l
+        let ws := out.warnings.map fun r => s!"w:{loggerName r.logger}:{encStr r.msg}"
+        let body := match out.result with
+          | .error e => ["err:" ++ errName e]
+          | .ok g => "err:-" :: (g.params.map paramItem ++ g.vertices.map vertexItem ++ g.edges.map edgeItem)
+        let reply := " ".intercalate (ws ++ body)
+        if reply.contains '?' then "need table " ++ reply else "ok " ++ reply
+  | _, _ => "err bad-args"
+
+def handleExport (rest : List String) : String :=
+  let ss := sections rest
+  let items := sect ss "@G"
+  match items.foldl (fun g it => g.bind (parseItem · it)) (some (⟨[], [], []⟩ : Graph Atom)) with
+  | none => "err bad-graph"
+  | some g =>
+    let tfF := mkTbl (sect ss "@F"); let tfI := mkTbl (sect ss "@I"); let tW := mkTbl (sect ss "@W")
+    let env := mkEnv {} {} tW {} tfF tfI
+    if !(tW.contains zeroAtom) then "need wrap " ++ zeroAtom else
+    match Graph.toG2OTrace env g with
+    | none => "err ValueError none"
+    | some (s, none) => if s.contains '?' then "need table " ++ encStr s else "ok " ++ encStr s
+    | some (s, some e) => if s.contains '?' then "need table " ++ encStr s else s!"err {errName e} {encStr s}"
+
+def handleLines (t : String) : String :=
+  match decStr t with
+  | none => "err bad-args"
+  | some text =>
+    "ok " ++ " ".intercalate ((readlines text).map fun l =>
+      s!"{encStr l}/{if isBlank l then 1 else 0}/{encStr (rstrip l)}/{",".intercalate ((splitWS l).map encStr)}")
+
+def handleWs : String :=
+  "ok " ++ " ".intercalate (((List.range 0x110000).filter fun n => n.isValidChar && isPySpace (Char.ofNat n)).map hexOfNat)
+
+def handle (line : String) : String :=
+  match (line.trimAscii.toString.splitOn " ").filter (· ≠ "") with
+  | ["ws"] => handleWs
+  | ["lines", t] => handleLines t
+  | "import" :: ld :: rest => handleImport ld rest
+  | "export" :: rest => handleExport rest
+  | _ => "err bad-op"
+
+end G2ODriver
+
+partial def loop (h : IO.FS.Stream) (out : IO.FS.Stream) : IO Unit := do
+  let line ← h.getLine
+  if line.isEmpty then return ()
+  out.putStrLn (G2ODriver.handle line)
+  out.flush
+  loop h out
+
+def main : IO Unit := do
+  let out ← IO.getStdout
+  loop (← IO.getStdin) out
+  out.flush
